@@ -16,7 +16,7 @@ SAN = "-fsanitize=address,undefined -fno-sanitize=nonnull-attribute -fno-sanitiz
 
 WRAPS = ("pthread_mutex_lock pthread_mutex_unlock pthread_cond_wait pthread_cond_timedwait "
          "pthread_cond_signal pthread_cond_broadcast pthread_create pthread_join clock_gettime "
-         "nanosleep epoll_wait nni_random sendmsg send writev readv "
+         "nanosleep epoll_wait nni_random sendmsg send writev readv getaddrinfo "
          "nni_atomic_flag_test_and_set nni_atomic_dec_nv nni_atomic_inc nni_atomic_dec "
          "nni_atomic_cas nni_atomic_swap_bool nni_atomic_get_bool nni_atomic_get "
          "nni_alloc nni_zalloc nni_free nni_plat_pipe_raise nni_plat_pipe_clear").split()
